@@ -335,7 +335,9 @@ def split_cases(ctx, wd, n):
 
 
 # ------------------------------------------------------------------ ligands end to end
-def ligand_run(rng, timeout=90):
+def ligand_run(rng, timeout=90, by_name=False):
+    if by_name:
+        return ligand_run_by_name(rng, timeout)
     chain = systems.gen_moltype(rng, 'MA', nres=rng.randint(3, 6), shape='path')
     lig = systems.gen_moltype(rng, 'LIG', nres=1, resnames=['LG'])
     other = systems.gen_moltype(rng, 'MB', nres=rng.randint(1, 3), shape='path')
@@ -371,7 +373,78 @@ def ligand_run(rng, timeout=90):
     return {'moltypes': [chain, lig, other], 'molecules': molecules, 'specs': specs, 'resids': resids, 'ligs': ligs}, res, rec
 
 
+def ligand_run_by_name(rng, timeout=90):
+    """several -lig options, one per host molecule, each naming the ligand by molecule name only"""
+    chain = systems.gen_moltype(rng, 'MA', nres=rng.randint(3, 5), shape='path')
+    lig = systems.gen_moltype(rng, 'LIG', nres=1, resnames=['LG'])
+    nhost = rng.randint(2, 3)
+    molecules = [('MA', nhost), ('LIG', rng.randint(1, 2))] if rng.random() < 0.5 else [('LIG', rng.randint(1, 2)), ('MA', nhost)]
+    inst = [n for n, c in molecules for _ in range(c)]
+    hosts = [i for i, n in enumerate(inst) if n == 'MA']
+    resids = [rng.randint(1, chain['nres']) for _ in hosts]
+    specs = [(f"MA#{h}-{chain['resnames'][r - 1]}#{r}", "LIG") for h, r in zip(hosts, resids)]
+    rec = {'steps': [], 'left': None}
+
+    def wrap_run_system(real):
+        def run_system(self, mols):
+            out = real(self, mols)
+            for mi, mol in enumerate(self.topology.molecules):
+                for node in mol.nodes:
+                    if 'ligated' in mol.nodes[node]:
+                        parent = next(iter(mol.neighbors(node)))
+                        p, q = np.array(mol.nodes[node]['position']), np.array(mol.nodes[parent]['position'])
+                        box = np.array(self.box, dtype=float)
+                        dvec = p - q
+                        dvec -= box * np.round(dvec / box)
+                        step = float(self.nonbond_matrix.get_interaction(mi, mi, parent, node)[0])
+                        rec['steps'].append({'mol': mi, 'parent_resid': int(mol.nodes[parent]['resid']), 'ligated': [int(x) for x in mol.nodes[node]['ligated']],
+                                             'dist': float(np.linalg.norm(dvec)), 'step': step, 'pos': [float(x) for x in p]})
+            return out
+        return run_system
+
+    def wrap_split(real):
+        def split_ligands(self):
+            out = real(self)
+            rec['left'] = [(mi, n) for mi, mol in enumerate(self.topology.molecules) for n in mol.nodes if 'ligated' in mol.nodes[n]]
+            rec['nres'] = [len(mol.nodes) for mol in self.topology.molecules]
+            return out
+        return split_ligands
+    with systems.Workdir() as wd:
+        res = systems.run_gen_coords(wd, systems.top_text([chain, lig], molecules), seed=rng.randrange(10 ** 6), timeout=timeout, maxiter=200,
+                                     box=np.array([6.0, 6.0, 6.0]), ligands=[list(s) for s in specs],
+                                     hooks={'polyply.src.build_system:BuildSystem.run_system': wrap_run_system,
+                                            'polyply.src.annotate_ligands:AnnotateLigands.split_ligands': wrap_split})
+    return {'moltypes': [chain, lig], 'molecules': molecules, 'specs': specs, 'resids': resids, 'hosts': hosts, 'by_name': True}, res, rec
+
+
+def ligand_judge_by_name(case, res, rec):
+    bad = []
+    by = {mt['name']: mt for mt in case['moltypes']}
+    inst = [n for n, c in case['molecules'] for _ in range(c)]
+    if rec.get('left'):
+        bad.append(f"after the ligands were handed back the molecules still hold ligand nodes {rec['left']}")
+    if rec.get('nres') and rec['nres'] != [by[n]['nres'] for n in inst]:
+        bad.append(f"after the ligands were handed back the molecules have {rec['nres']} residues, the topology {[by[n]['nres'] for n in inst]}")
+    if bad:
+        return bad
+    if not res['ok']:
+        return [] if res['exc_type'] == 'RunTimeout' else [f"gen_coords -lig fails: {res['exc_type']}: {str(res.get('exception'))[:150]}"]
+    want = systems.expanded_atoms(case['moltypes'], case['molecules'])
+    if [(r['resid'], r['resname'], r['name']) for r in res['rows']] != want:
+        return ["with -lig the output does not list the atoms of the [ molecules ] section in order (molecule list changed)"]
+    if sorted((st['mol'], st['parent_resid']) for st in rec['steps']) != sorted(zip(case['hosts'], case['resids'])):
+        bad.append(f"ligands attached at {sorted((st['mol'], st['parent_resid']) for st in rec['steps'])}, the options name {sorted(zip(case['hosts'], case['resids']))}")
+    for st in rec['steps']:
+        if inst[st['ligated'][0]] != 'LIG':
+            bad.append(f"molecule {st['ligated'][0]} attached as a ligand is not a LIG molecule")
+        if abs(st['dist'] - st['step']) > 1e-6:
+            bad.append(f"ligand placed {st['dist']:.4f} nm from its residue, one step is {st['step']:.4f} nm")
+    return bad
+
+
 def ligand_judge(case, res, rec):
+    if case.get('by_name'):
+        return ligand_judge_by_name(case, res, rec)
     bad = []
     if not res['ok']:
         if res['exc_type'] == 'RunTimeout':
@@ -538,8 +611,10 @@ def run(ctx):
             ctx.note(str(exc)[:800])
             ctx.broken.append('correspondence:selection vs model (evaluation failed)')
     pipeline_cases(ctx, ctx.n(40, 400))
-    for _ in range(ctx.n(8, 80)):
-        case, res, rec = ligand_run(rng)
+    for _lig_k in range(ctx.n(9, 80)):
+        case, res, rec = ligand_run(rng, by_name=(_lig_k % 3 == 2))
+        if case.get('by_name'):
+            ctx.feature('several_lig_options_by_name')
         ctx.case(('lig', json.dumps(case['specs']), json.dumps(case['molecules'])), nontrivial=res['ok'], sample={'specs': case['specs'], 'molecules': case['molecules'], 'steps': rec['steps'][:2]})
         ctx.feature('ligand_run_ok' if res['ok'] else 'ligand_run_failed')
         for b in ligand_judge(case, res, rec)[:2]:
